@@ -53,6 +53,16 @@ func toEditionProto(ed filedesc.Edition) descriptorpb.Edition {
 	}
 }
 
+// isKnownEdition reports whether toEditionProto and the embedded defaults
+// can handle the edition.
+func isKnownEdition(epb descriptorpb.Edition) bool {
+	switch fromEditionProto(epb) {
+	case filedesc.EditionProto2, filedesc.EditionProto3, filedesc.Edition2023, filedesc.Edition2024, filedesc.EditionUnstable:
+		return defaults.GetMinimumEdition() <= epb && epb <= defaults.GetMaximumEdition() || epb == descriptorpb.Edition_EDITION_UNSTABLE
+	}
+	return false
+}
+
 func getFeatureSetFor(ed filedesc.Edition) *descriptorpb.FeatureSet {
 	defaultsCacheMu.Lock()
 	defer defaultsCacheMu.Unlock()
